@@ -164,6 +164,21 @@ func (g *slGen) step() {
 		}
 		g.vars[k] = slView{arr: a, ln: ln, cp: ln, capKnown: true}
 		g.add(fmt.Sprintf("%s = []%s{%s}", name(k), g.h.Elem, strings.Join(lits, ", ")))
+	case c < 6 && g.r.Bool(): // the slice a variadic function received (a fresh array per call, capacity == length)
+		ln := g.r.Intn(4)
+		a := &slArray{}
+		var lits []string
+		for i := 0; i < ln; i++ {
+			x := g.nextVal()
+			a.data = append(a.data, x)
+			lits = append(lits, strconv.Itoa(x))
+		}
+		if ln == 0 {
+			g.vars[k] = slView{isNil: true}
+		} else {
+			g.vars[k] = slView{arr: a, ln: ln, cp: ln, capKnown: true}
+		}
+		g.add(fmt.Sprintf("%s = pack(%s)", name(k), strings.Join(lits, ", ")))
 	case c < 6: // nil
 		g.vars[k] = slView{isNil: true}
 		g.add(fmt.Sprintf("%s = nil", name(k)))
@@ -325,6 +340,7 @@ func c11Script(h slHistory) string {
 	if h.Elem == "" {
 		h.Elem = "int"
 	}
+	fmt.Fprintf(&sb, "func pack(xs ...%s) []%s {\n\treturn xs\n}\n\n", h.Elem, h.Elem)
 	fmt.Fprintf(&sb, "func hist(z int) {\n\tvar t []%s\n\tvar w %s\n\t_, _ = t, w\n", h.Elem, h.Elem)
 	for i := 0; i < h.NVars; i++ {
 		fmt.Fprintf(&sb, "\tvar s%d []%s\n", i, h.Elem)
@@ -381,7 +397,7 @@ func c11Decide(h slHistory) (what string, src string, got core.Outcome, want str
 }
 
 func runC11(r *core.Run) {
-	r.SetRule("histories of 12-40 steps over a pool of 3-7 slice variables of one element type (int, float64 or uint8): make (lengths 0-20), literal, nil, sub-slice (all five spellings, upper bound up to the capacity when the specification fixes it, bounds computed through a variable), element write, append of 1-3 values, append-spread including self-spread, copy incl. overlapping, range with writes in the body; every variable's contents, length, nil-ness and a type-sensitive use of its first element (halved for float64, +200 wrapped for uint8) are printed after every step; one third of the histories end with an out-of-range index or slice expression with computed bounds, which must be an error. non-trivial = at least 8 steps executed; distinct by script text")
+	r.SetRule("histories of 12-40 steps over a pool of 3-7 slice variables of one element type (int, float64 or uint8): make (lengths 0-20), the slice a variadic function received and returned, literal, nil, sub-slice (all five spellings, upper bound up to the capacity when the specification fixes it, bounds computed through a variable), element write, append of 1-3 values, append-spread including self-spread, copy incl. overlapping, range with writes in the body; every variable's contents, length, nil-ness and a type-sensitive use of its first element (halved for float64, +200 wrapped for uint8) are printed after every step; one third of the histories end with an out-of-range index or slice expression with computed bounds, which must be an error. non-trivial = at least 8 steps executed; distinct by script text")
 	r.Assume("the model implements the Go specification: make(len) and literals have cap == len, s[i:j] has cap(s)-i, append within capacity writes in place, append beyond it yields a fresh array of unspecified spare capacity; the generator never appends to a slice of unspecified spare capacity while another live variable shares its array, so no expected value depends on the growth policy")
 	n := r.N(6000, 200000)
 	core.Parallel((n+99)/100, func(chunk int) {
